@@ -53,3 +53,11 @@ Lemma C34_old_escape_logged_ok :
     rec_status (emit_record old_http ex_env e) = Some (s "ok") /\
     get (s "http_status") (emit_record old_http ex_env e) = Some (JInt 200).
 Proof. eexists. split; [left; reflexivity|]. repeat split; vm_compute; reflexivity. Qed.
+
+(* [timestamp-not-schema-valid]  not the current source: rendering the NEAREST millisecond with the same ":03d" and no
+   carry (round(dt.microsecond / 1000)) yields four fractional digits from .9995 s on, which the pattern refuses *)
+Lemma C34_nearest_millisecond_timestamp_invalid :
+  render_ts_with false (s "2026-04-26T15:30:45") 999500 = s "2026-04-26T15:30:45.1000Z" /\
+  field_ok P (s "timestamp", JStr (render_ts_with false (s "2026-04-26T15:30:45") 999500)) = false /\
+  field_ok P (s "timestamp", JStr (render_ts (s "2026-04-26T15:30:45") 999500)) = true.
+Proof. repeat split; vm_compute; reflexivity. Qed.
